@@ -140,6 +140,7 @@ class State:
         self.facts: list[Lin] = []
         self.eqs: list[Lin] = []       # explicit equalities (each == 0); also present in facts as f >= 0 and -f >= 0
         self.heap: dict[int, dict] = {}
+        self._owned: set = set()     # heap objects this state may mutate in place (copy-on-write)
         self.prefixes: dict = {}   # repr(term) -> tuple of constant prefixes the byte string is known to start with
         self.events: list = []     # (callee fq, argument BytesV) of summarised helper calls on this path
         self.dead = None           # None | 'return' | 'continue' | 'break' | 'raise'
@@ -153,13 +154,22 @@ class State:
         s.eqs = list(self.eqs)
         s.prefixes = dict(self.prefixes)
         s.events = list(self.events)
-        s.heap = {k: _copy_obj(v) for k, v in self.heap.items()}
+        s.heap = dict(self.heap)      # objects are shared until one side writes (mut)
+        s._owned = set()
+        self._owned = set()
         s.dead = self.dead
         s.retval = self.retval
         s.trace = list(self.trace)
         s._feas_n = getattr(self, "_feas_n", 0)
         s._feas_v = getattr(self, "_feas_v", False)
         return s
+
+    def mut(self, oid):
+        """the heap object `oid`, private to this state (copied on first write after a clone)"""
+        if oid not in self._owned:
+            self.heap[oid] = _copy_obj(self.heap[oid])
+            self._owned.add(oid)
+        return self.heap[oid]
 
     def snap(self):
         """facts-only snapshot (cheap): enough to decide entailments later"""
@@ -224,6 +234,7 @@ class State:
         self.prefixes = other.prefixes
         self.events = other.events
         self.heap = other.heap
+        self._owned = other._owned
         self.trace = other.trace
         self.dead = other.dead
         self.retval = other.retval
@@ -290,6 +301,8 @@ def _obj_sig(o):
 
 
 def dedupe(states):
+    if len(states) < 2:
+        return list(states)
     seen = {}
     for s in states:
         k = s.sig()
@@ -411,6 +424,7 @@ class Interp:
     def alloc(self, st, kind, **kw) -> Ref:
         oid = next(self.counter)
         st.heap[oid] = dict(kind=kind, **kw)
+        st._owned.add(oid)
         return Ref(oid, kind)
 
     # ---------------------------------------------------------------- entry
@@ -650,22 +664,22 @@ class Interp:
                     if oid not in s.heap:
                         continue
                     if o["kind"] == "list":
-                        sigs = nxt.heap[oid].setdefault("sigs", set())
+                        sigs = nxt.mut(oid).setdefault("sigs", set())
                         new_items = s.heap[oid]["items"][len(o["items"]):]
                         for it in new_items:
                             sg = self.item_sig(it, s, tl)
                             if sg not in sigs and s.dead in (None, "continue"):
-                                nxt.heap[oid]["sigs"] = sigs | {sg}
+                                nxt.mut(oid)["sigs"] = sigs | {sg}
                                 sigs = nxt.heap[oid]["sigs"]
-                                nxt.heap[oid]["items"] = nxt.heap[oid]["items"] + [it]
-                                nxt.heap[oid]["summary"] = True
-                                nxt.heap[oid]["length"] = None
+                                nxt.mut(oid)["items"] = nxt.heap[oid]["items"] + [it]
+                                nxt.mut(oid)["summary"] = True
+                                nxt.mut(oid)["length"] = None
                                 if isinstance(it, Ref):
                                     _import_obj(nxt, s, it.oid)
                                     self.birth[it.oid] = s
                                     # the same object (allocated before a partition point) can be appended on several paths:
                                     # remember the producing state per list position
-                                    nxt.heap[oid].setdefault("item_states", {})[len(nxt.heap[oid]["items"]) - 1] = s
+                                    nxt.mut(oid).setdefault("item_states", {})[len(nxt.heap[oid]["items"]) - 1] = s
                                 elif isinstance(it, IntV):
                                     # project the element: a fresh symbol with the candidate bounds (over loop-invariant quantities) that hold
                                     # where it was produced; the bounds are attached to the item and only assumed when the item is drawn
@@ -680,7 +694,7 @@ class Interp:
                                             gf.append(z - cand)
                                         if s.le(it.lin, cand):
                                             gf.append(cand - z)
-                                    nxt.heap[oid]["items"][-1] = GuardedInt(z, tuple(gf))
+                                    nxt.mut(oid)["items"][-1] = GuardedInt(z, tuple(gf))
                                 grew = True
                             elif isinstance(it, Ref):
                                 self.birth.setdefault(it.oid, s)
@@ -693,7 +707,7 @@ class Interp:
                     for k in nxt.heap[c[1]]["fields"]:
                         vals = [(s.heap[c[1]]["fields"].get(k), s) for s in back if c[1] in s.heap]
                         if any(not _same_value(nxt.heap[c[1]]["fields"][k], v, nxt, s) for v, s in vals):
-                            nxt.heap[c[1]]["fields"][k] = UnknownV(f"havoc field {k}")
+                            nxt.mut(c[1])["fields"][k] = UnknownV(f"havoc field {k}")
                 else:
                     vals = [s.env.get(c) for s in back] + [cur.env.get(c)]
                     nf = len(nxt.facts)
@@ -898,20 +912,20 @@ class Interp:
         elif isinstance(target, ast.Attribute):
             o = self.ev(target.value, st, fi)
             if isinstance(o, Ref) and st.heap[o.oid]["kind"] == "node":
-                st.heap[o.oid]["fields"][target.attr] = v
+                st.mut(o.oid)["fields"][target.attr] = v
             elif isinstance(o, Ref) and st.heap[o.oid]["kind"] == "obj":
-                st.heap[o.oid]["attrs"][target.attr] = v
+                st.mut(o.oid)["attrs"][target.attr] = v
         elif isinstance(target, ast.Subscript):
             o = self.ev(target.value, st, fi)
             idx = self.ev(target.slice, st, fi) if not isinstance(target.slice, ast.Slice) else None
             if isinstance(o, Ref) and st.heap[o.oid]["kind"] == "list":
-                lst = st.heap[o.oid]
+                lst = st.mut(o.oid)
                 if isinstance(idx, IntV):
                     self.record_index(fi, target, o, idx, st)
                 lst["items"] = lst["items"] + [v]
                 lst["summary"] = True
             elif isinstance(o, Ref) and st.heap[o.oid]["kind"] == "dict":
-                st.heap[o.oid].setdefault("values", []).append(v)
+                st.mut(o.oid)["values"] = list(st.heap[o.oid].get("values") or []) + [v]
         elif isinstance(target, ast.Starred):
             self.assign(target.value, v, st, fi)
 
@@ -1413,7 +1427,7 @@ class Interp:
             o = st.heap[base.oid]
             if o["kind"] == "list":
                 if isinstance(idx, ConstV) and isinstance(idx.value, int) and o.get("split_of") is not None:
-                    return self.split_piece(o, idx.value, st)
+                    return self.split_piece(st.mut(base.oid), idx.value, st)
                 if isinstance(idx, ConstV) and isinstance(idx.value, int) and not o.get("summary") and o.get("iter") is None and -len(o["items"]) <= idx.value < len(o["items"]):
                     return o["items"][idx.value]
                 if o.get("elem") is not None:
@@ -1684,6 +1698,7 @@ class Interp:
         st.facts = r.facts
         st.eqs = r.eqs
         st.heap = r.heap
+        st._owned = r._owned
         st.trace = r.trace
         st.events = r.events
         st.prefixes = r.prefixes
@@ -1787,7 +1802,7 @@ class Interp:
         if isinstance(ch, Ref):
             for c in st.heap[ch.oid]["items"]:
                 if isinstance(c, Ref) and st.heap[c.oid]["kind"] == "node":
-                    st.heap[c.oid]["fields"]["parent"] = ref
+                    st.mut(c.oid)["fields"]["parent"] = ref
         self.node_sites.append(SiteRecord(node, fi, tuple(f.fq for f in self.call_stack), ref.oid))
         return ref
 
@@ -1806,7 +1821,7 @@ class Interp:
                     return self.call_repo_value(FuncV(nm.funcs[q]), [recv] + args, kwargs, st, node, fi)
                 return UnknownV("node method " + name)
             if o["kind"] == "list":
-                return self.list_method(recv, o, name, args, st, node, fi)
+                return self.list_method(recv, st.mut(recv.oid) if name in ("append", "extend", "insert", "sort", "reverse", "clear", "remove") else o, name, args, st, node, fi)
             if o["kind"] == "obj":
                 return UnknownV("obj method " + name)
             if o["kind"] == "dict":
@@ -2438,6 +2453,7 @@ def _import_obj(dst: State, src: State, oid, seen=None):
     seen.add(oid)
     o = _copy_obj(src.heap[oid])
     dst.heap[oid] = o
+    dst._owned.add(oid)
     for v in list(o.get("items", [])) + list(o.get("fields", {}).values()) + list(o.get("attrs", {}).values()):
         if isinstance(v, Ref):
             _import_obj(dst, src, v.oid, seen)
